@@ -63,7 +63,7 @@ def gen_spec(rng, idx: int):
     n_steps = rng.randrange(1, 4)
     steps = [rng.choice(need)] + [rng.choice(avail) for _ in range(n_steps - 1)]
     if src <= 10:
-        steps[0] = ["pad_attr", "clip_attr", {7: "upsample_attr", 8: "upsample_attr", 9: "upsample_input", 10: "resize10"}[src]][idx // 4 % 3]
+        steps[0] = ["pad_attr", "clip_attr", {7: "upsample_attr", 8: "upsample_attr", 9: "upsample_input", 10: "resize10"}[src]][(idx // 4 + idx // 12) % 3]
     rng.shuffle(steps)
     chain = [("d", s) for s in steps]
     n_custom = rng.randrange(1, 4)
